@@ -314,7 +314,8 @@ package server
 //@   props C08 C07
 //@   nonil
 //@   requires firstMsg != nil && isnil(e.conn) && e.OverrideAddr == ""
-//@   ensures (isnil(ret) ==> selBool(connOpen, e) && !e.closed) && (old(e.closed) ==> !isnil(ret) && isnil(e.conn) && connOpen == old(connOpen))
+//@   ensures isnil(ret) ==> !connPrivOpen && selBool(connOpen, e) && !e.closed
+//@   ensures connPrivOpen ==> old(connPrivOpen)
 //@   ensures isnil(ret) ==> !isnil(e.conn) && (e.OverrideAddr == "" ==> allowUDP(payload(e.IO), firstMsg.Addr))
 //@   ensures isnil(ret) && e.OverrideAddr != "" ==> allowUDP(payload(e.IO), e.OverrideAddr) && e.OriginalAddr == firstMsg.Addr
 //@   modifies any
@@ -428,9 +429,20 @@ package server
 // the socket obtained by e's dial is open. It is closed at most once, only by CloseWithErr,
 // never dialled after the session exited, and a closed session has no open socket.
 //@ ghost var connOpen (Array Int Bool)
+// (the dialled socket is private to the initConn invocation - connPrivOpen - until it is
+// installed in e.conn; every invocation ends with its socket installed or closed)
+//@ ghost var connPrivOpen Bool
+//@ ghost var connPriv Int
+//@ hook call udpSessionEntry.DialFunc(this, addr, data) in (*udpSessionEntry).initConn
+//@   update connPrivOpen = false
 //@ hook after call udpSessionEntry.DialFunc(this, addr, data) (conn, actual, err) in (*udpSessionEntry).initConn
 //@   when isnil(err)
-//@   update connOpen = upd(connOpen, this, true)
+//@   update connPriv = payload(conn)
+//@   update connPrivOpen = true
+//@ hook store udpSessionEntry.conn(obj, v) in (*udpSessionEntry).initConn
+//@   when connPrivOpen && payload(v) == connPriv
+//@   update connOpen = upd(connOpen, obj, true)
+//@   update connPrivOpen = false
 //@ guard call udpSessionEntry.DialFunc(this, addr, data) in (*udpSessionEntry).initConn
 //@   props C07
 //@   requires !e.closed && isnil(e.conn) && !selBool(connOpen, e)
@@ -447,7 +459,9 @@ package server
 //@   props C07 C08
 //@   nonil
 //@   ensures e.closed && !selBool(connOpen, e)
-//@   ensures old(e.closed) ==> connOpen == old(connOpen)
 //@   modifies e.closed, connOpen
 //@ structural C07: stores udpSessionEntry.closed in (*udpSessionEntry).CloseWithErr value true
 //@ structural C07: calls UDPConn.Close in (*udpSessionEntry).CloseWithErr
+
+// interference: other goroutines (Feed vs. the reply loop vs. the sweeper) may change these between critical sections
+//@ monitor udpSessionEntry.connLock: conn, closed
